@@ -1050,10 +1050,14 @@ class mulgrid(object):
         if isinstance(oldcolname, str) and isinstance(newcolname, str):
             oldcolname, newcolname = [oldcolname], [newcolname]
         try:
-            for olditem, newitem in zip(oldcolname, newcolname):
-                i = self.columnlist.index(self.column[olditem])
-                self.columnlist[i].name = newitem
-                self.column[newitem] = self.column.pop(olditem)
+            cols = [self.columnlist[self.columnlist.index(self.column[olditem])]
+                    for olditem in oldcolname]
+            for col, newitem in zip(cols, newcolname): col.name = newitem
+            # rebuild the lookups: column keys (also correct for swapped
+            # names) and the connection keys, which hold column names
+            self.column = dict([(col.name, col) for col in self.columnlist])
+            self.connection = dict([((con.column[0].name, con.column[1].name), con)
+                                    for con in self.connectionlist])
             self.setup_block_name_index()
             self.setup_block_connection_name_index()
             return True
